@@ -99,6 +99,7 @@ Definition pstep (i skipp skip : nat) (prev : list cost) (ec : nat) (st : pst) (
 (* one iteration of "for i in range(r)" : (new row, sc, ec) *)
 Definition prow_step (i skipp : nat) (prev : list cost) (sc ec : nat) : list cost * nat * nat :=
   let skip := skip_of i in
+  let sc := if (i <=? psi_1b u)%nat then 0%nat else sc in              (* if i <= psi_1b: sc = 0 *)
   let j0 := Nat.max (js i) sc in                                       (* if sc > j_start: j_start = sc *)
   let cur0 := repeat Inf L in
   let cur1 := if negb (psi_1b u =? 0)%nat && (j0 =? 0)%nat && (i <? psi_1b u)%nat then upd_nat cur0 0 (Fin 0) else cur0 in
@@ -108,7 +109,7 @@ Definition prow_step (i skipp : nat) (prev : list cost) (sc ec : nat) : list cos
 
 Fixpoint prows (n : nat) : list cost * nat * cost * nat * nat :=       (* (row, skip, psi_shortest, sc, ec) *)
   match n with
-  | O => (row_init, 0%nat, Inf, 0%nat, 0%nat)
+  | O => (row_init, 0%nat, Inf, 0%nat, psi_2b u)                          (* sc = 0; ec = psi_2b *)
   | S i =>
     let '(prev, skipp, ps, sc, ec) := prows i in
     let '(cur, sc', ec') := prow_step i skipp prev sc ec in
